@@ -370,3 +370,11 @@ Proof. rewrite gen_dist_return, gen_dist_diff. reflexivity. Qed.
 Lemma gen_uniform rn l u k :
   ddenote rn l u 0 k uniform_return_ast = uniform_real rn l u k.
 Proof. unfold uniform_return_ast, uniform_real. cbn [ddenote]. rewrite !Rminus_0_r. reflexivity. Qed.
+
+(* uniform_real_distribution<T>::operator()(G&) for ANY generator range: g.min() is subtracted from the sample in the
+   numerator and from g.max() in the divisor (dropping either breaks this) *)
+Lemma gen_uniform_any_generator rn l u gmin gmax k :
+  ddenote_g rn l u 0 gmin gmax k uniform_return_ast = uniform_real_g rn l u gmin gmax k.
+Proof.
+  unfold uniform_return_ast, uniform_real_g. cbn [ddenote_g]. rewrite <- !minus_IZR. reflexivity.
+Qed.
